@@ -12,6 +12,7 @@ import (
 
 	"github.com/openGemini/openGemini/coordinator"
 	"github.com/openGemini/openGemini/lib/config"
+	"github.com/openGemini/openGemini/lib/metaclient"
 	"github.com/openGemini/openGemini/lib/util/lifted/influx/influxql"
 	"github.com/openGemini/openGemini/lib/util/lifted/influx/meta"
 	proto2 "github.com/openGemini/openGemini/lib/util/lifted/influx/meta/proto"
@@ -25,6 +26,7 @@ import (
 // catalogue on the real meta.Data
 
 type world struct {
+	walive map[uint64][]int // per group: alive shard indexes while the rows were written
 	cfg  Cfg
 	data *meta.Data
 	mc   *mclient
@@ -65,10 +67,27 @@ func newWorld(cfg Cfg) *world {
 		w.msts = append(w.msts, mi)
 	}
 	w.mc = &mclient{data: w.data, offline: map[int]bool{}, born: map[uint64]int{}, resh: map[uint64]bool{}, cur: -1}
-	for _, o := range cfg.Offline {
+	w.mc.real = &metaclient.Client{}
+	w.mc.real.SetCacheData(w.data)
+	w.setOffline(cfg.Offline)
+	config.SetHardWrite(cfg.HardWrite)
+	return w
+}
+
+// setOffline sets the status of every partition of the database (PtView), as a store node going down or coming back does
+func (w *world) setOffline(off []int) {
+	w.mc.offline = map[int]bool{}
+	for _, o := range off {
 		w.mc.offline[o] = true
 	}
-	return w
+	pts := make(meta.DBPtInfos, w.cfg.PtNum)
+	for i := range pts {
+		pts[i] = meta.PtInfo{PtId: uint32(i), Status: meta.Online, Owner: meta.PtOwner{NodeID: 1}}
+		if w.mc.offline[i] {
+			pts[i].Status = meta.Offline
+		}
+	}
+	w.data.PtView = map[string]meta.DBPtInfos{dbName: pts}
 }
 
 // a hand-built group with key ranges (the state a range-sharded policy is in after resharding)
@@ -105,6 +124,7 @@ func (w *world) snapshotGroups() []Group {
 			g.Shards = append(g.Shards, Shard{sh.ID, sh.Min, sh.Max})
 		}
 		g.Alive = w.mc.GetAliveShards(dbName, sg, true)
+		g.WAlive = w.walive[sg.ID]
 		res = append(res, g)
 	}
 	return res
@@ -215,8 +235,23 @@ func genCfg(r *gen.Rand) Cfg {
 	for _, m := range cfg.Msts {
 		anyInit = anyInit || m.InitNum != 0
 	}
-	if cfg.Typ == meta.HASH && !anyInit && cfg.PtNum > 2 && r.Chance(1, 6) {
-		cfg.Offline = []int{r.Intn(cfg.PtNum)}
+	if cfg.Typ == meta.HASH && !anyInit && cfg.PtNum > 2 && r.Chance(1, 5) {
+		a, b := r.Intn(cfg.PtNum), r.Intn(cfg.PtNum)
+		switch r.Intn(5) {
+		case 0, 1: // offline all the time
+			cfg.Offline = []int{a}
+		case 2: // goes offline after the rows were written
+			cfg.OfflineRead = []int{a}
+		case 3: // was offline while the rows were written, is back when the query runs
+			cfg.Offline, cfg.OfflineRead = []int{a}, []int{}
+		default: // another partition
+			cfg.Offline, cfg.OfflineRead = []int{a}, []int{b}
+		}
+		if r.Chance(1, 4) {
+			// hard-write: a write to a shard of an offline partition fails, so every partition is online while the rows are
+			// written; one goes offline before the query
+			cfg.HardWrite, cfg.Offline, cfg.OfflineRead = true, nil, []int{a}
+		}
 	}
 	return cfg
 }
@@ -490,6 +525,23 @@ func runCase(n int, cfg Cfg, qm int, alter *Alter, resh *Reshard, cs condSpec, p
 		seenAt[k] = i
 	}
 
+	// ---- between the writes and the query: partitions may go offline or come back
+	w.walive = map[uint64][]int{}
+	for gi := range w.rpi.ShardGroups {
+		sg := &w.rpi.ShardGroups[gi]
+		w.walive[sg.ID] = w.mc.GetAliveShards(dbName, sg, false)
+	}
+	if cfg.OfflineRead != nil {
+		w.setOffline(cfg.OfflineRead)
+	}
+	onlineAtRead := map[uint64]bool{}
+	for gi := range w.rpi.ShardGroups {
+		sg := &w.rpi.ShardGroups[gi]
+		for _, sh := range sg.Shards {
+			onlineAtRead[sh.ID] = len(sh.Owners) == 0 || !w.mc.offline[int(sh.Owners[0])]
+		}
+	}
+
 	// ---- read side, measurement qm
 	qmst := w.msts[qm]
 	if cond != nil {
@@ -620,6 +672,9 @@ func runCase(n int, cfg Cfg, qm int, alter *Alter, resh *Reshard, cs condSpec, p
 			p.Sat = evalNode(c.Cond, p.Leaf)
 		}
 		p.InTR = c.TMin <= p.Time && p.Time <= c.TMax
+		if p.M == qm && p.Err == "" && !onlineAtRead[p.SID] {
+			continue // the partition holding the row is offline: nothing can read it now (availability, not placement)
+		}
 		if p.M == qm && p.Err == "" && p.Sat && p.InTR && !consulted[p.SID] {
 			c.Oracle = append(c.Oracle, fmt.Sprintf("prune: point %d (%s t=%d, tags %v) satisfies the query but its shard %d of group %d is not consulted", i, mcf.Mst, p.Time, p.Tags, p.SID, p.GID))
 		}
@@ -1012,6 +1067,17 @@ func witnessCases() []Case {
 		e, _ := influxql.ParseExpr(txt)
 		res = append(res, runCase(-18-k, cfg, 0, nil, &Reshard{At: 8, Bounds: []string{mver + ",host=h2", mver + ",host=h5"}, Mode: 0},
 			condSpec{label: "parser", expr: e, text: txt}, pts, full[0], full[1], false, nil))
+	}
+	// W10: a partition goes offline between the writes and the query (write-available-first), and the same under hard-write
+	for k, hw := range []bool{false, true} {
+		txt := `host = 'd'`
+		e, _ := influxql.ParseExpr(txt)
+		var pts []Point
+		for i, v := range []string{"a", "b", "c", "d", "e", "f", "g", "h", "i", "j", "k", "l"} {
+			pts = append(pts, Point{Tags: [][2]string{{"host", v}}, Time: base + int64(i)})
+		}
+		cfg := Cfg{Msts: []MstCfg{one("cpu", dh, []string{"host"})}, Typ: meta.HASH, Dur: h, PtNum: 8, OfflineRead: []int{7}, HardWrite: hw}
+		res = append(res, runCase(-23-k, cfg, 0, nil, nil, condSpec{label: "parser", expr: e, text: txt}, pts, full[0], full[1], false, nil))
 	}
 	return res
 }
